@@ -31,7 +31,7 @@ RULE = (
 )
 BOUNDS = {
     "quick": "d<=2, K=2 backgrounds, Finished fault locations {none, 1, 8 octets}",
-    "thorough": "d<=3, K=4 backgrounds, Finished fault locations {none, 1, 2, 4, 8 octets}",
+    "thorough": "full product of the edge alphabets of all axes, every pair of axes over the product of their full alphabets, K=8 backgrounds, Finished fault locations {none, 1, 2, 4, 8 octets}",
 }
 ASSUMPTIONS = [
     "reference encoder ref/cfdp.py transcribes CCSDS 727.0-B-5 5.1/5.2/5.4 (bound to the repository's expected byte vectors by selftest/st_ref_cfdp.py)",
@@ -41,17 +41,19 @@ ASSUMPTIONS = [
 ]
 
 DIRECTIVES = ["EofPdu", "FinishedPdu", "AckPdu", "MetadataPdu", "NakPdu", "PromptPdu", "KeepAlivePdu"]
-CFGS = [{"crc": c, "large": l, "idw": i, "seqw": s, "mode": m}
-        for c, l, i, s, m in itertools.product((0, 1), (0, 1), (1, 2, 4, 8), (1, 2, 4, 8), (0, 1))]
+# 128 header configurations; the segmentation-control bit (it shares octet 3 with the two width fields, and every PDU kind
+# carries it) alternates over them so that every value of every other axis meets both of its values
+CFGS = [{"crc": c, "large": l, "idw": i, "seqw": s, "mode": m, "segctrl": (k // 2 + k // 8 + k // 32) % 2}
+        for k, (c, l, i, s, m) in enumerate(itertools.product((0, 1), (0, 1), (1, 2, 4, 8), (1, 2, 4, 8), (0, 1)))]
 CHUNKS = 16
 
 
 def _dmax(tier):
-    return 2 if tier == "quick" else 3
+    return 2 if tier == "quick" else 6  # 6 >= number of axes of every kind: the full product of the edge alphabets
 
 
 def _k(tier):
-    return 2 if tier == "quick" else 4
+    return 2 if tier == "quick" else 8
 
 
 def fault_values():
@@ -106,7 +108,7 @@ def _key(v):
     return repr(U.hexed(v))
 
 
-def enum_vectors(kind, axes, dmax, k_bg):
+def enum_vectors(kind, axes, dmax, k_bg, pairs_full=False):
     """(vectors simplest first, number of duplicates dropped)"""
     names = [a[0] for a in axes]
     full = {a[0]: a[1] for a in axes}
@@ -133,6 +135,11 @@ def enum_vectors(kind, axes, dmax, k_bg):
         for subset in itertools.combinations(names, d):
             for vals in itertools.product(*[edge[n][1:] for n in subset]):
                 emit(dict(default, **dict(zip(subset, vals))))
+    if pairs_full:  # thorough: every pair of axes over the product of their FULL alphabets
+        for a, b in itertools.combinations(names, 2):
+            for va in full[a]:
+                for vb in full[b]:
+                    emit(dict(default, **{a: va, b: vb}))
     return out, dups[0]
 
 
@@ -159,7 +166,7 @@ def vectors_for(kind, large, tier):
                     vs.append({"cc": cc, "dc": dc, "fs": fs, "resps": resps, "fault": fault})
         res = (vs, 0)
     else:
-        res = enum_vectors(kind, axes_of(kind, large, tier), _dmax(tier), _k(tier))
+        res = enum_vectors(kind, axes_of(kind, large, tier), _dmax(tier), _k(tier), pairs_full=(tier == "thorough"))
     _VEC_CACHE[key] = res
     return res
 
